@@ -1,10 +1,14 @@
 (* Model of mstr/mstr.go: Trunc, CompareNatural, parseInt, parseStr, isDigit.
    Strings are lists of bytes (Z).  Loops are the loops of the Go code over an index into the
    string, with explicit fuel; every s[i] and s[lo:hi] is bounds-checked (PanicIndex).  The UTF-8
-   mask tests, index expressions, decrements, digit bounds, the accumulation step of parseInt and
-   every branch condition come from Gen/MstrMasks.v (regenerated from the Go source on every run).
-   Go's int is 64 bits: parseInt's accumulation wraps ([wrap64]); the theorems are stated for digit
-   runs short enough that it never does.  Definitions only. *)
+   mask tests, index expressions, decrements, digit bounds, the accumulation step of parseInt,
+   every branch condition, the argument order of every cmp.Compare / parseInt / parseStr call, the
+   right-hand sides of both `a, b = ra, rb` and the returned expressions come from Gen/MstrMasks.v
+   (regenerated from the Go source on every run).
+   Go's int is 64 bits: parseInt's accumulation wraps ([wrap64]) when [wrap] = true, which is the
+   code as it stands ([compare_natural]); [wrap] = false is the variant with an unbounded
+   accumulator ([compare_natural_wide]), used only to say what the overflow costs.
+   Definitions only. *)
 From Coq Require Import ZArith List Bool.
 Import ListNotations.
 From Mds Require Import Gen.MstrMasks Mbits.BytesBase.
@@ -35,21 +39,24 @@ Definition trunc (s : list Z) (n : Z) : res (list Z) :=
 
 Definition wrap64 (z : Z) : Z := (z + 2 ^ 63) mod 2 ^ 64 - 2 ^ 63.
 
+(* the value an int variable holds after being assigned the mathematical value z *)
+Definition int_of (wrap : bool) (z : Z) : Z := if wrap then wrap64 z else z.
+
 (* for i < len(s) && isDigit(s[i]) { v = v*10 + int(s[i]-'0'); i++ } *)
-Fixpoint pi_loop (fuel : nat) (s : list Z) (i v : Z) : res (Z * Z) :=
+Fixpoint pi_loop (wrap : bool) (fuel : nat) (s : list Z) (i v : Z) : res (Z * Z) :=
   match fuel with
   | O => OutOfFuel
   | S f =>
     bind (cond_res (str_at s i) (fun c => pi_for i (zlen s) (is_digit c))
                    (pi_for i (zlen s) true || pi_for i (zlen s) false)) (fun b =>
     if b then
-      bind (str_at s i) (fun c => pi_loop f s (pi_step i) (wrap64 (pi_acc v c)))
+      bind (str_at s i) (fun c => pi_loop wrap f s (pi_step i) (int_of wrap (pi_acc v c)))
     else Ok (i, v))
   end.
 
 (* returns (value, rest, ok) *)
-Definition parse_int (s : list Z) : res (Z * list Z * bool) :=
-  bind (pi_loop (S (length s)) s 0 0) (fun '(i, v) =>
+Definition parse_int (wrap : bool) (s : list Z) : res (Z * list Z * bool) :=
+  bind (pi_loop wrap (S (length s)) s 0 0) (fun '(i, v) =>
   bind (slice_from s (pi_lo i)) (fun r =>
   Ok (pi_val v, r, pi_ok i))).
 
@@ -85,24 +92,36 @@ Fixpoint cmp_bytes (a b : list Z) : Z :=
 
 Definition nonempty (s : list Z) : bool := match s with [] => false | _ => true end.
 
-Fixpoint cn_loop (fuel : nat) (a b : list Z) : res Z :=
+(* The translator renders "which variable stands here" as a function of the candidates; applied
+   to 0 and 1 it yields the position of the variable the Go source names. *)
+Definition pick2 {A : Type} (sel : Z) (x y : A) : A := if sel =? 0 then x else y.
+
+Fixpoint cn_loop (wrap : bool) (fuel : nat) (a b : list Z) : res Z :=
   match fuel with
   | O => OutOfFuel
   | S f =>
     if cn_for (nonempty a) (nonempty b) then
-      bind (parse_int a) (fun '(va, ra, aok) =>
-      bind (parse_int b) (fun '(vb, rb, bok) =>
+      bind (parse_int wrap (pick2 (cn_pi0_arg 0 1) a b)) (fun '(va, ra, aok) =>
+      bind (parse_int wrap (pick2 (cn_pi1_arg 0 1) a b)) (fun '(vb, rb, bok) =>
       if cn_both aok bok then
-        let c := cmp_int va vb in
-        if cn_num_ne c then Ok c else cn_loop f ra rb
-      else if cn_mixed aok bok then Ok (cmp_bytes a b)
+        let c := cmp_int (cn_cmp0_l va vb) (cn_cmp0_r va vb) in
+        if cn_num_ne c then Ok (cn_ret0 c)
+        else cn_loop wrap f (pick2 (cn_next0_a 0 1) ra rb) (pick2 (cn_next0_b 0 1) ra rb)
+      else if cn_mixed aok bok then
+        Ok (cmp_bytes (pick2 (cn_cmp1_l 0 1) a b) (pick2 (cn_cmp1_r 0 1) a b))
       else
-        bind (parse_str a) (fun '(pa, ra') =>
-        bind (parse_str b) (fun '(pb, rb') =>
-        let c := cmp_bytes pa pb in
-        if cn_str_ne c then Ok c else cn_loop f ra' rb'))))
-    else Ok (cmp_bytes a b)
+        bind (parse_str (pick2 (cn_ps0_arg 0 1) a b)) (fun '(pa, ra') =>
+        bind (parse_str (pick2 (cn_ps1_arg 0 1) a b)) (fun '(pb, rb') =>
+        let c := cmp_bytes (pick2 (cn_cmp2_l 0 1) pa pb) (pick2 (cn_cmp2_r 0 1) pa pb) in
+        if cn_str_ne c then Ok (cn_ret2 c)
+        else cn_loop wrap f (pick2 (cn_next1_a 0 1) ra' rb') (pick2 (cn_next1_b 0 1) ra' rb')))))
+    else Ok (cmp_bytes (pick2 (cn_cmp3_l 0 1) a b) (pick2 (cn_cmp3_r 0 1) a b))
   end.
 
+(* the code as it stands: int is 64 bits *)
 Definition compare_natural (a b : list Z) : res Z :=
-  cn_loop (S (length a + length b)) a b.
+  cn_loop true (S (length a + length b)) a b.
+
+(* the same statements with an accumulator that cannot overflow *)
+Definition compare_natural_wide (a b : list Z) : res Z :=
+  cn_loop false (S (length a + length b)) a b.
